@@ -106,6 +106,22 @@ def prune_build(features):
             shutil.rmtree(d, ignore_errors=True)
 
 
+def drop_large_builds(limit_gb=6.0):
+    """disk space is limited: a build directory that has grown beyond the limit (one goto binary per harness: the thorough tier of
+    C10 leaves 28 GB) is removed at the end of the run; the next run rebuilds it"""
+    import atexit
+
+    def _go():
+        try:
+            for d in CACHE.glob("kani-" + BUILD_KEY + "*"):
+                out = subprocess.run(["du", "-sk", str(d)], stdout=subprocess.PIPE, text=True).stdout.split()
+                if out and int(out[0]) > limit_gb * 1024 * 1024:
+                    shutil.rmtree(d, ignore_errors=True)
+        except Exception:
+            pass
+    atexit.register(_go)
+
+
 RE_CHECKING = re.compile(r"^(?:Thread (\d+): )?Checking harness (\S+?)\.\.\.\s*$")
 RE_THREAD_RES = re.compile(r"^Thread (\d+):\s*$")
 
@@ -401,6 +417,7 @@ def main():
     # ---- Kani groups --------------------------------------------------------
     kobls = [o for o in obls if o.engine == "kani"]
     set_build(prop, [o.target for o in kobls] + [o.confirm for o in kobls])
+    drop_large_builds()
     for features in sorted({o.features for o in kobls}):
         group = [o for o in kobls if o.features == features]
         # memory-heavy harnesses run in a second pass with fewer parallel CBMC processes
